@@ -524,6 +524,57 @@ def run_parent_killed(case: dict[str, Any]) -> dict[str, Any]:
     return {"calls": case["at"] + 1, "code": None}
 
 
+def run_restart(case: dict[str, Any]) -> dict[str, Any]:
+    """One optimizer object started twice: the first start ends because the evaluator raises, the second one (healthy evaluator)
+    must behave through the external process exactly as in-process - nothing of the first start is left in the object."""
+    from ropt.config.enopt import EnOptConfig
+    from ropt.ensemble_evaluator import EnsembleEvaluator
+    from ropt.optimization import EnsembleOptimizer
+    from ropt.plugins import PluginManager
+
+    outcomes = []
+    for external in (False, True):
+        cfg, ev, _ = build("slsqp", external)
+        config = EnOptConfig.model_validate(cfg)
+        state = {"raise_at": case["at"]}
+
+        def hook(call: int, variables: np.ndarray, context: Any, state: dict[str, Any] = state) -> None:  # noqa: ANN401, ARG001
+            if state["raise_at"] is not None and call == state["raise_at"]:
+                msg = f"injected evaluator error {call}"
+                raise InjectedEvaluatorError(msg)
+
+        ev.hook = hook
+        manager = PluginManager()
+        optimizer = EnsembleOptimizer(config, EnsembleEvaluator(config, None, ev, manager), manager)
+        start = np.asarray(config.variables.initial_values, dtype=np.float64)
+        signal.signal(signal.SIGALRM, _alarm)
+        signal.alarm(120)
+        try:
+            try:
+                first: Any = ("returned", optimizer.start(start.copy()))
+            except InjectedEvaluatorError as exc:
+                first = ("raised", str(exc))
+            n_first = len(ev.calls)
+            state["raise_at"] = None
+            try:
+                second: Any = ("returned", optimizer.start(start.copy()))
+            except HangError:
+                raise
+            except Exception as exc:  # noqa: BLE001
+                second = ("raised", f"{type(exc).__name__}: {exc}")
+        except HangError:
+            check(False, "hang", f"restarting the optimizer object ({'external' if external else 'in-process'}) did not end within 120 s", case)  # noqa: FBT003
+        finally:
+            signal.alarm(0)
+        outcomes.append((first, second, [c["variables"].tobytes() for c in ev.calls[n_first:]], child_pids()))
+    (f_in, s_in, t_in, _), (f_ex, s_ex, t_ex, left) = outcomes
+    check(not left, "child-left-running", f"optimizer process {left} still running after the second start", case)
+    check(f_ex == f_in, "exit-code-differs", f"first start: in-process {f_in}, external {f_ex}", case)
+    check(s_ex == s_in, "exit-code-differs", f"second start of the same optimizer object: in-process {s_in}, external {s_ex}", case)
+    check(t_ex == t_in, "trace-differs", f"second start: {len(t_in)} evaluations in-process, {len(t_ex)} through the external process", case)
+    return {"calls": len(t_in), "code": s_in[1] if s_in[0] == "returned" else None}
+
+
 def run_unserialisable(case: dict[str, Any]) -> dict[str, Any]:
     """An option value that cannot be sent to the other process (a Generator as DE seed): an error is fine, a leftover process is not."""
     CONFIGS["_unserialisable"] = {"optimizer": {"method": "differential_evolution",
@@ -604,6 +655,8 @@ def run_case(case: dict[str, Any]) -> dict[str, Any]:
         return run_daemonized(case)
     if kind == "parent-killed":
         return run_parent_killed(case)
+    if kind == "restart":
+        return run_restart(case)
     if kind == "child-error":
         return run_child_error(case)
     if kind == "equal":
@@ -673,6 +726,7 @@ def shards(tier: str, seed: int) -> list[dict[str, Any]]:  # noqa: ARG001
     items.extend({"kind": "child-error", "config": "failing-backend", "error": e, "after": k, "optimize": True}
                  for e, k in ([("message", 1), ("empty", 0)] if tier == "quick" else [(e, k) for e in ("message", "empty", "exit3", "finish") for k in (0, 1, 2)]))
     items.append({"kind": "daemon", "config": "slsqp"})
+    items.extend({"kind": "restart", "config": "slsqp", "at": at} for at in ((1, 3) if tier == "quick" else range(5)))
     items.extend({"kind": "parent-killed", "config": "slsqp", "at": at} for at in ((0, 2) if tier == "quick" else range(6)))
     # message sizes around the capacity of a pipe (64 KiB) and its multiples, every single length in a window, and small ones
     window = 16 if tier == "quick" else 48
